@@ -1198,6 +1198,17 @@ def c08_oracle_cases(tier, seed):
         cases.append(script_case(gen_c08(rng), mode="emacs", history=hist, timeout=rng.choice(["none", 0]),
                                  prompt=rng.choice(["> ", ""]), cols=rng.choice([80, 80, 24]),
                                  initial=p_tty.mk_initial(rng, 0.25, ["a", "b", " ", "é"])))
+    # an entry longer than 4096 bytes (the MAX_LINE of fixed-capacity buffers) whose only match lies beyond that offset: found,
+    # shown and accepted whole, by C-r and by C-r C-s
+    for i in range(12 if tier == "thorough" else 3):
+        body = "".join(rng.choice(["a", "b", "é", " "]) for _ in range(rng.randint(4100, 4300)))
+        tail = rng.choice(["qz tail", " q", "xq日"])
+        hist = [["older", body + tail, "newer"], [body + tail, "n1", "n2"], ["o1", "o2", body + tail]][i % 3]
+        cmds = [Cmd(["C-r"], "s_start"), Cmd(["q"], "s_char", c=ord("q"))]
+        if i % 2:
+            cmds += [Cmd(["C-s"], "s_again_f"), Cmd(["C-r"], "s_again_r")]
+        cmds += [Cmd(["C-e"], "s_exit", cmd="end"), Cmd(["F12"], "noop")]
+        cases.append(script_case(cmds, mode="emacs", history=hist, timeout=0, prompt="> ", cols=80))
     return cases
 
 
